@@ -325,7 +325,9 @@ def gen_reply_table(rng, prog, n_names=None, force_modes=None):
         pnames = ["payload"] if sig == "raw" else [f"p{i + 1}" for i in range(len(sig))]
         if sig != "raw" and rng.random() < 0.3:
             # names that coincide with fields / locals of the generated builders
-            special = rng.sample(["id", "reply_on", "msg", "gas_limit", "contract", "payload"], min(len(sig), 4))
+            special = rng.sample(["id", "reply_on", "msg", "gas_limit", "payload"], min(len(sig), 4))
+            if rng.random() < 0.5:
+                special[0] = "contract"   # the name of dispatch_reply's own argument
             pnames = special + pnames[len(special):]
         m["payload_names"] = pnames
         table["methods"].append(m)
